@@ -170,203 +170,203 @@ macro_rules! decode_tags {
 // @verif what=decode_value total on arbitrary bytes with tag byte 1 (bool): Ok/Err, no panic, no out-of-bounds read, consumed <= input, unknown tags rejected
 // @verif fns=retain::{decode_value,RetainReader::*}
 // @verif bound=all byte strings of length 1, 2, 3, 5, 9 or 10 whose first byte is 1 (tag byte and length concrete per call site, remaining bytes symbolic)
-// @verif stub=alloc::vec::Vec::<T>::with_capacity -> allocation monitor (asserts cap*size_of::<T>() <= 128*|input|+256, returns Vec::new())
+// @verif stub=alloc::vec::Vec::<T>::with_capacity -> allocation monitor (asserts cap*size_of::<T>() <= 128*|input|+256, then reserves the requested capacity)
 decode_tags!(c10_decode_total_bool, [1]);
 
 // @verif prop=C10 kernel=K2 tiers=thorough timeout=1800 unwind=1 stubbing=yes mem=12
 // @verif what=decode_value total on arbitrary bytes with tag byte 2 (sint): Ok/Err, no panic, no out-of-bounds read, consumed <= input, unknown tags rejected
 // @verif fns=retain::{decode_value,RetainReader::*}
 // @verif bound=all byte strings of length 1, 2, 3, 5, 9 or 10 whose first byte is 2 (tag byte and length concrete per call site, remaining bytes symbolic)
-// @verif stub=alloc::vec::Vec::<T>::with_capacity -> allocation monitor (asserts cap*size_of::<T>() <= 128*|input|+256, returns Vec::new())
+// @verif stub=alloc::vec::Vec::<T>::with_capacity -> allocation monitor (asserts cap*size_of::<T>() <= 128*|input|+256, then reserves the requested capacity)
 decode_tags!(c10_decode_total_sint, [2]);
 
 // @verif prop=C10 kernel=K2 tiers=thorough timeout=1800 unwind=1 stubbing=yes mem=12
 // @verif what=decode_value total on arbitrary bytes with tag byte 3 (int): Ok/Err, no panic, no out-of-bounds read, consumed <= input, unknown tags rejected
 // @verif fns=retain::{decode_value,RetainReader::*}
 // @verif bound=all byte strings of length 1, 2, 3, 5, 9 or 10 whose first byte is 3 (tag byte and length concrete per call site, remaining bytes symbolic)
-// @verif stub=alloc::vec::Vec::<T>::with_capacity -> allocation monitor (asserts cap*size_of::<T>() <= 128*|input|+256, returns Vec::new())
+// @verif stub=alloc::vec::Vec::<T>::with_capacity -> allocation monitor (asserts cap*size_of::<T>() <= 128*|input|+256, then reserves the requested capacity)
 decode_tags!(c10_decode_total_int, [3]);
 
 // @verif prop=C10 kernel=K2 tiers=thorough timeout=1800 unwind=1 stubbing=yes mem=12
 // @verif what=decode_value total on arbitrary bytes with tag byte 4 (dint): Ok/Err, no panic, no out-of-bounds read, consumed <= input, unknown tags rejected
 // @verif fns=retain::{decode_value,RetainReader::*}
 // @verif bound=all byte strings of length 1, 2, 3, 5, 9 or 10 whose first byte is 4 (tag byte and length concrete per call site, remaining bytes symbolic)
-// @verif stub=alloc::vec::Vec::<T>::with_capacity -> allocation monitor (asserts cap*size_of::<T>() <= 128*|input|+256, returns Vec::new())
+// @verif stub=alloc::vec::Vec::<T>::with_capacity -> allocation monitor (asserts cap*size_of::<T>() <= 128*|input|+256, then reserves the requested capacity)
 decode_tags!(c10_decode_total_dint, [4]);
 
 // @verif prop=C10 kernel=K2 tiers=quick,thorough timeout=1800 unwind=1 stubbing=yes mem=12
 // @verif what=decode_value total on arbitrary bytes with tag byte 5 (lint): Ok/Err, no panic, no out-of-bounds read, consumed <= input, unknown tags rejected
 // @verif fns=retain::{decode_value,RetainReader::*}
 // @verif bound=all byte strings of length 1, 2, 3, 5, 9 or 10 whose first byte is 5 (tag byte and length concrete per call site, remaining bytes symbolic)
-// @verif stub=alloc::vec::Vec::<T>::with_capacity -> allocation monitor (asserts cap*size_of::<T>() <= 128*|input|+256, returns Vec::new())
+// @verif stub=alloc::vec::Vec::<T>::with_capacity -> allocation monitor (asserts cap*size_of::<T>() <= 128*|input|+256, then reserves the requested capacity)
 decode_tags!(c10_decode_total_lint, [5]);
 
 // @verif prop=C10 kernel=K2 tiers=thorough timeout=1800 unwind=1 stubbing=yes mem=12
 // @verif what=decode_value total on arbitrary bytes with tag byte 6 (usint): Ok/Err, no panic, no out-of-bounds read, consumed <= input, unknown tags rejected
 // @verif fns=retain::{decode_value,RetainReader::*}
 // @verif bound=all byte strings of length 1, 2, 3, 5, 9 or 10 whose first byte is 6 (tag byte and length concrete per call site, remaining bytes symbolic)
-// @verif stub=alloc::vec::Vec::<T>::with_capacity -> allocation monitor (asserts cap*size_of::<T>() <= 128*|input|+256, returns Vec::new())
+// @verif stub=alloc::vec::Vec::<T>::with_capacity -> allocation monitor (asserts cap*size_of::<T>() <= 128*|input|+256, then reserves the requested capacity)
 decode_tags!(c10_decode_total_usint, [6]);
 
 // @verif prop=C10 kernel=K2 tiers=thorough timeout=1800 unwind=1 stubbing=yes mem=12
 // @verif what=decode_value total on arbitrary bytes with tag byte 7 (uint): Ok/Err, no panic, no out-of-bounds read, consumed <= input, unknown tags rejected
 // @verif fns=retain::{decode_value,RetainReader::*}
 // @verif bound=all byte strings of length 1, 2, 3, 5, 9 or 10 whose first byte is 7 (tag byte and length concrete per call site, remaining bytes symbolic)
-// @verif stub=alloc::vec::Vec::<T>::with_capacity -> allocation monitor (asserts cap*size_of::<T>() <= 128*|input|+256, returns Vec::new())
+// @verif stub=alloc::vec::Vec::<T>::with_capacity -> allocation monitor (asserts cap*size_of::<T>() <= 128*|input|+256, then reserves the requested capacity)
 decode_tags!(c10_decode_total_uint, [7]);
 
 // @verif prop=C10 kernel=K2 tiers=thorough timeout=1800 unwind=1 stubbing=yes mem=12
 // @verif what=decode_value total on arbitrary bytes with tag byte 8 (udint): Ok/Err, no panic, no out-of-bounds read, consumed <= input, unknown tags rejected
 // @verif fns=retain::{decode_value,RetainReader::*}
 // @verif bound=all byte strings of length 1, 2, 3, 5, 9 or 10 whose first byte is 8 (tag byte and length concrete per call site, remaining bytes symbolic)
-// @verif stub=alloc::vec::Vec::<T>::with_capacity -> allocation monitor (asserts cap*size_of::<T>() <= 128*|input|+256, returns Vec::new())
+// @verif stub=alloc::vec::Vec::<T>::with_capacity -> allocation monitor (asserts cap*size_of::<T>() <= 128*|input|+256, then reserves the requested capacity)
 decode_tags!(c10_decode_total_udint, [8]);
 
 // @verif prop=C10 kernel=K2 tiers=thorough timeout=1800 unwind=1 stubbing=yes mem=12
 // @verif what=decode_value total on arbitrary bytes with tag byte 9 (ulint): Ok/Err, no panic, no out-of-bounds read, consumed <= input, unknown tags rejected
 // @verif fns=retain::{decode_value,RetainReader::*}
 // @verif bound=all byte strings of length 1, 2, 3, 5, 9 or 10 whose first byte is 9 (tag byte and length concrete per call site, remaining bytes symbolic)
-// @verif stub=alloc::vec::Vec::<T>::with_capacity -> allocation monitor (asserts cap*size_of::<T>() <= 128*|input|+256, returns Vec::new())
+// @verif stub=alloc::vec::Vec::<T>::with_capacity -> allocation monitor (asserts cap*size_of::<T>() <= 128*|input|+256, then reserves the requested capacity)
 decode_tags!(c10_decode_total_ulint, [9]);
 
 // @verif prop=C10 kernel=K2 tiers=quick,thorough timeout=1800 unwind=1 stubbing=yes mem=12
 // @verif what=decode_value total on arbitrary bytes with tag byte 10 (real): Ok/Err, no panic, no out-of-bounds read, consumed <= input, unknown tags rejected
 // @verif fns=retain::{decode_value,RetainReader::*}
 // @verif bound=all byte strings of length 1, 2, 3, 5, 9 or 10 whose first byte is 10 (tag byte and length concrete per call site, remaining bytes symbolic)
-// @verif stub=alloc::vec::Vec::<T>::with_capacity -> allocation monitor (asserts cap*size_of::<T>() <= 128*|input|+256, returns Vec::new())
+// @verif stub=alloc::vec::Vec::<T>::with_capacity -> allocation monitor (asserts cap*size_of::<T>() <= 128*|input|+256, then reserves the requested capacity)
 decode_tags!(c10_decode_total_real, [10]);
 
 // @verif prop=C10 kernel=K2 tiers=thorough timeout=1800 unwind=1 stubbing=yes mem=12
 // @verif what=decode_value total on arbitrary bytes with tag byte 11 (lreal): Ok/Err, no panic, no out-of-bounds read, consumed <= input, unknown tags rejected
 // @verif fns=retain::{decode_value,RetainReader::*}
 // @verif bound=all byte strings of length 1, 2, 3, 5, 9 or 10 whose first byte is 11 (tag byte and length concrete per call site, remaining bytes symbolic)
-// @verif stub=alloc::vec::Vec::<T>::with_capacity -> allocation monitor (asserts cap*size_of::<T>() <= 128*|input|+256, returns Vec::new())
+// @verif stub=alloc::vec::Vec::<T>::with_capacity -> allocation monitor (asserts cap*size_of::<T>() <= 128*|input|+256, then reserves the requested capacity)
 decode_tags!(c10_decode_total_lreal, [11]);
 
 // @verif prop=C10 kernel=K2 tiers=thorough timeout=1800 unwind=1 stubbing=yes mem=12
 // @verif what=decode_value total on arbitrary bytes with tag byte 12 (byte): Ok/Err, no panic, no out-of-bounds read, consumed <= input, unknown tags rejected
 // @verif fns=retain::{decode_value,RetainReader::*}
 // @verif bound=all byte strings of length 1, 2, 3, 5, 9 or 10 whose first byte is 12 (tag byte and length concrete per call site, remaining bytes symbolic)
-// @verif stub=alloc::vec::Vec::<T>::with_capacity -> allocation monitor (asserts cap*size_of::<T>() <= 128*|input|+256, returns Vec::new())
+// @verif stub=alloc::vec::Vec::<T>::with_capacity -> allocation monitor (asserts cap*size_of::<T>() <= 128*|input|+256, then reserves the requested capacity)
 decode_tags!(c10_decode_total_byte, [12]);
 
 // @verif prop=C10 kernel=K2 tiers=thorough timeout=1800 unwind=1 stubbing=yes mem=12
 // @verif what=decode_value total on arbitrary bytes with tag byte 13 (word): Ok/Err, no panic, no out-of-bounds read, consumed <= input, unknown tags rejected
 // @verif fns=retain::{decode_value,RetainReader::*}
 // @verif bound=all byte strings of length 1, 2, 3, 5, 9 or 10 whose first byte is 13 (tag byte and length concrete per call site, remaining bytes symbolic)
-// @verif stub=alloc::vec::Vec::<T>::with_capacity -> allocation monitor (asserts cap*size_of::<T>() <= 128*|input|+256, returns Vec::new())
+// @verif stub=alloc::vec::Vec::<T>::with_capacity -> allocation monitor (asserts cap*size_of::<T>() <= 128*|input|+256, then reserves the requested capacity)
 decode_tags!(c10_decode_total_word, [13]);
 
 // @verif prop=C10 kernel=K2 tiers=thorough timeout=1800 unwind=1 stubbing=yes mem=12
 // @verif what=decode_value total on arbitrary bytes with tag byte 14 (dword): Ok/Err, no panic, no out-of-bounds read, consumed <= input, unknown tags rejected
 // @verif fns=retain::{decode_value,RetainReader::*}
 // @verif bound=all byte strings of length 1, 2, 3, 5, 9 or 10 whose first byte is 14 (tag byte and length concrete per call site, remaining bytes symbolic)
-// @verif stub=alloc::vec::Vec::<T>::with_capacity -> allocation monitor (asserts cap*size_of::<T>() <= 128*|input|+256, returns Vec::new())
+// @verif stub=alloc::vec::Vec::<T>::with_capacity -> allocation monitor (asserts cap*size_of::<T>() <= 128*|input|+256, then reserves the requested capacity)
 decode_tags!(c10_decode_total_dword, [14]);
 
 // @verif prop=C10 kernel=K2 tiers=thorough timeout=1800 unwind=1 stubbing=yes mem=12
 // @verif what=decode_value total on arbitrary bytes with tag byte 15 (lword): Ok/Err, no panic, no out-of-bounds read, consumed <= input, unknown tags rejected
 // @verif fns=retain::{decode_value,RetainReader::*}
 // @verif bound=all byte strings of length 1, 2, 3, 5, 9 or 10 whose first byte is 15 (tag byte and length concrete per call site, remaining bytes symbolic)
-// @verif stub=alloc::vec::Vec::<T>::with_capacity -> allocation monitor (asserts cap*size_of::<T>() <= 128*|input|+256, returns Vec::new())
+// @verif stub=alloc::vec::Vec::<T>::with_capacity -> allocation monitor (asserts cap*size_of::<T>() <= 128*|input|+256, then reserves the requested capacity)
 decode_tags!(c10_decode_total_lword, [15]);
 
 // @verif prop=C10 kernel=K2 tiers=quick,thorough timeout=1800 unwind=1 stubbing=yes mem=12
 // @verif what=decode_value total on arbitrary bytes with tag byte 16 (time): Ok/Err, no panic, no out-of-bounds read, consumed <= input, unknown tags rejected
 // @verif fns=retain::{decode_value,RetainReader::*}
 // @verif bound=all byte strings of length 1, 2, 3, 5, 9 or 10 whose first byte is 16 (tag byte and length concrete per call site, remaining bytes symbolic)
-// @verif stub=alloc::vec::Vec::<T>::with_capacity -> allocation monitor (asserts cap*size_of::<T>() <= 128*|input|+256, returns Vec::new())
+// @verif stub=alloc::vec::Vec::<T>::with_capacity -> allocation monitor (asserts cap*size_of::<T>() <= 128*|input|+256, then reserves the requested capacity)
 decode_tags!(c10_decode_total_time, [16]);
 
 // @verif prop=C10 kernel=K2 tiers=thorough timeout=1800 unwind=1 stubbing=yes mem=12
 // @verif what=decode_value total on arbitrary bytes with tag byte 17 (ltime): Ok/Err, no panic, no out-of-bounds read, consumed <= input, unknown tags rejected
 // @verif fns=retain::{decode_value,RetainReader::*}
 // @verif bound=all byte strings of length 1, 2, 3, 5, 9 or 10 whose first byte is 17 (tag byte and length concrete per call site, remaining bytes symbolic)
-// @verif stub=alloc::vec::Vec::<T>::with_capacity -> allocation monitor (asserts cap*size_of::<T>() <= 128*|input|+256, returns Vec::new())
+// @verif stub=alloc::vec::Vec::<T>::with_capacity -> allocation monitor (asserts cap*size_of::<T>() <= 128*|input|+256, then reserves the requested capacity)
 decode_tags!(c10_decode_total_ltime, [17]);
 
 // @verif prop=C10 kernel=K2 tiers=thorough timeout=1800 unwind=1 stubbing=yes mem=12
 // @verif what=decode_value total on arbitrary bytes with tag byte 18 (date): Ok/Err, no panic, no out-of-bounds read, consumed <= input, unknown tags rejected
 // @verif fns=retain::{decode_value,RetainReader::*}
 // @verif bound=all byte strings of length 1, 2, 3, 5, 9 or 10 whose first byte is 18 (tag byte and length concrete per call site, remaining bytes symbolic)
-// @verif stub=alloc::vec::Vec::<T>::with_capacity -> allocation monitor (asserts cap*size_of::<T>() <= 128*|input|+256, returns Vec::new())
+// @verif stub=alloc::vec::Vec::<T>::with_capacity -> allocation monitor (asserts cap*size_of::<T>() <= 128*|input|+256, then reserves the requested capacity)
 decode_tags!(c10_decode_total_date, [18]);
 
 // @verif prop=C10 kernel=K2 tiers=thorough timeout=1800 unwind=1 stubbing=yes mem=12
 // @verif what=decode_value total on arbitrary bytes with tag byte 19 (ldate): Ok/Err, no panic, no out-of-bounds read, consumed <= input, unknown tags rejected
 // @verif fns=retain::{decode_value,RetainReader::*}
 // @verif bound=all byte strings of length 1, 2, 3, 5, 9 or 10 whose first byte is 19 (tag byte and length concrete per call site, remaining bytes symbolic)
-// @verif stub=alloc::vec::Vec::<T>::with_capacity -> allocation monitor (asserts cap*size_of::<T>() <= 128*|input|+256, returns Vec::new())
+// @verif stub=alloc::vec::Vec::<T>::with_capacity -> allocation monitor (asserts cap*size_of::<T>() <= 128*|input|+256, then reserves the requested capacity)
 decode_tags!(c10_decode_total_ldate, [19]);
 
 // @verif prop=C10 kernel=K2 tiers=thorough timeout=1800 unwind=1 stubbing=yes mem=12
 // @verif what=decode_value total on arbitrary bytes with tag byte 20 (tod): Ok/Err, no panic, no out-of-bounds read, consumed <= input, unknown tags rejected
 // @verif fns=retain::{decode_value,RetainReader::*}
 // @verif bound=all byte strings of length 1, 2, 3, 5, 9 or 10 whose first byte is 20 (tag byte and length concrete per call site, remaining bytes symbolic)
-// @verif stub=alloc::vec::Vec::<T>::with_capacity -> allocation monitor (asserts cap*size_of::<T>() <= 128*|input|+256, returns Vec::new())
+// @verif stub=alloc::vec::Vec::<T>::with_capacity -> allocation monitor (asserts cap*size_of::<T>() <= 128*|input|+256, then reserves the requested capacity)
 decode_tags!(c10_decode_total_tod, [20]);
 
 // @verif prop=C10 kernel=K2 tiers=thorough timeout=1800 unwind=1 stubbing=yes mem=12
 // @verif what=decode_value total on arbitrary bytes with tag byte 21 (ltod): Ok/Err, no panic, no out-of-bounds read, consumed <= input, unknown tags rejected
 // @verif fns=retain::{decode_value,RetainReader::*}
 // @verif bound=all byte strings of length 1, 2, 3, 5, 9 or 10 whose first byte is 21 (tag byte and length concrete per call site, remaining bytes symbolic)
-// @verif stub=alloc::vec::Vec::<T>::with_capacity -> allocation monitor (asserts cap*size_of::<T>() <= 128*|input|+256, returns Vec::new())
+// @verif stub=alloc::vec::Vec::<T>::with_capacity -> allocation monitor (asserts cap*size_of::<T>() <= 128*|input|+256, then reserves the requested capacity)
 decode_tags!(c10_decode_total_ltod, [21]);
 
 // @verif prop=C10 kernel=K2 tiers=thorough timeout=1800 unwind=1 stubbing=yes mem=12
 // @verif what=decode_value total on arbitrary bytes with tag byte 22 (dt): Ok/Err, no panic, no out-of-bounds read, consumed <= input, unknown tags rejected
 // @verif fns=retain::{decode_value,RetainReader::*}
 // @verif bound=all byte strings of length 1, 2, 3, 5, 9 or 10 whose first byte is 22 (tag byte and length concrete per call site, remaining bytes symbolic)
-// @verif stub=alloc::vec::Vec::<T>::with_capacity -> allocation monitor (asserts cap*size_of::<T>() <= 128*|input|+256, returns Vec::new())
+// @verif stub=alloc::vec::Vec::<T>::with_capacity -> allocation monitor (asserts cap*size_of::<T>() <= 128*|input|+256, then reserves the requested capacity)
 decode_tags!(c10_decode_total_dt, [22]);
 
 // @verif prop=C10 kernel=K2 tiers=thorough timeout=1800 unwind=1 stubbing=yes mem=12
 // @verif what=decode_value total on arbitrary bytes with tag byte 23 (ldt): Ok/Err, no panic, no out-of-bounds read, consumed <= input, unknown tags rejected
 // @verif fns=retain::{decode_value,RetainReader::*}
 // @verif bound=all byte strings of length 1, 2, 3, 5, 9 or 10 whose first byte is 23 (tag byte and length concrete per call site, remaining bytes symbolic)
-// @verif stub=alloc::vec::Vec::<T>::with_capacity -> allocation monitor (asserts cap*size_of::<T>() <= 128*|input|+256, returns Vec::new())
+// @verif stub=alloc::vec::Vec::<T>::with_capacity -> allocation monitor (asserts cap*size_of::<T>() <= 128*|input|+256, then reserves the requested capacity)
 decode_tags!(c10_decode_total_ldt, [23]);
 
 // @verif prop=C10 kernel=K2 tiers=thorough timeout=1800 unwind=1 stubbing=yes mem=12
 // @verif what=decode_value total on arbitrary bytes with tag byte 26 (char): Ok/Err, no panic, no out-of-bounds read, consumed <= input, unknown tags rejected
 // @verif fns=retain::{decode_value,RetainReader::*}
 // @verif bound=all byte strings of length 1, 2, 3, 5, 9 or 10 whose first byte is 26 (tag byte and length concrete per call site, remaining bytes symbolic)
-// @verif stub=alloc::vec::Vec::<T>::with_capacity -> allocation monitor (asserts cap*size_of::<T>() <= 128*|input|+256, returns Vec::new())
+// @verif stub=alloc::vec::Vec::<T>::with_capacity -> allocation monitor (asserts cap*size_of::<T>() <= 128*|input|+256, then reserves the requested capacity)
 decode_tags!(c10_decode_total_char, [26]);
 
 // @verif prop=C10 kernel=K2 tiers=thorough timeout=1800 unwind=1 stubbing=yes mem=12
 // @verif what=decode_value total on arbitrary bytes with tag byte 27 (wchar): Ok/Err, no panic, no out-of-bounds read, consumed <= input, unknown tags rejected
 // @verif fns=retain::{decode_value,RetainReader::*}
 // @verif bound=all byte strings of length 1, 2, 3, 5, 9 or 10 whose first byte is 27 (tag byte and length concrete per call site, remaining bytes symbolic)
-// @verif stub=alloc::vec::Vec::<T>::with_capacity -> allocation monitor (asserts cap*size_of::<T>() <= 128*|input|+256, returns Vec::new())
+// @verif stub=alloc::vec::Vec::<T>::with_capacity -> allocation monitor (asserts cap*size_of::<T>() <= 128*|input|+256, then reserves the requested capacity)
 decode_tags!(c10_decode_total_wchar, [27]);
 
 // @verif prop=C10 kernel=K2 tiers=quick,thorough timeout=1800 unwind=1 stubbing=yes mem=12
 // @verif what=decode_value total on arbitrary bytes with tag byte 31 (null): Ok/Err, no panic, no out-of-bounds read, consumed <= input, unknown tags rejected
 // @verif fns=retain::{decode_value,RetainReader::*}
 // @verif bound=all byte strings of length 1, 2, 3, 5, 9 or 10 whose first byte is 31 (tag byte and length concrete per call site, remaining bytes symbolic)
-// @verif stub=alloc::vec::Vec::<T>::with_capacity -> allocation monitor (asserts cap*size_of::<T>() <= 128*|input|+256, returns Vec::new())
+// @verif stub=alloc::vec::Vec::<T>::with_capacity -> allocation monitor (asserts cap*size_of::<T>() <= 128*|input|+256, then reserves the requested capacity)
 decode_tags!(c10_decode_total_null, [31]);
 
 // @verif prop=C10 kernel=K2 tiers=thorough timeout=1800 unwind=1 stubbing=yes mem=12
 // @verif what=decode_value total on arbitrary bytes with tag byte 0 (unknown0): Ok/Err, no panic, no out-of-bounds read, consumed <= input, unknown tags rejected
 // @verif fns=retain::{decode_value,RetainReader::*}
 // @verif bound=all byte strings of length 1, 2, 3, 5, 9 or 10 whose first byte is 0 (tag byte and length concrete per call site, remaining bytes symbolic)
-// @verif stub=alloc::vec::Vec::<T>::with_capacity -> allocation monitor (asserts cap*size_of::<T>() <= 128*|input|+256, returns Vec::new())
+// @verif stub=alloc::vec::Vec::<T>::with_capacity -> allocation monitor (asserts cap*size_of::<T>() <= 128*|input|+256, then reserves the requested capacity)
 decode_tags!(c10_decode_total_unknown0, [0]);
 
 // @verif prop=C10 kernel=K2 tiers=thorough timeout=1800 unwind=1 stubbing=yes mem=12
 // @verif what=decode_value total on arbitrary bytes with tag byte 32 (unknown32): Ok/Err, no panic, no out-of-bounds read, consumed <= input, unknown tags rejected
 // @verif fns=retain::{decode_value,RetainReader::*}
 // @verif bound=all byte strings of length 1, 2, 3, 5, 9 or 10 whose first byte is 32 (tag byte and length concrete per call site, remaining bytes symbolic)
-// @verif stub=alloc::vec::Vec::<T>::with_capacity -> allocation monitor (asserts cap*size_of::<T>() <= 128*|input|+256, returns Vec::new())
+// @verif stub=alloc::vec::Vec::<T>::with_capacity -> allocation monitor (asserts cap*size_of::<T>() <= 128*|input|+256, then reserves the requested capacity)
 decode_tags!(c10_decode_total_unknown32, [32]);
 
 // @verif prop=C10 kernel=K2 tiers=quick,thorough timeout=1800 unwind=1 stubbing=yes mem=12
 // @verif what=decode_value total on arbitrary bytes with tag byte 255 (unknown255): Ok/Err, no panic, no out-of-bounds read, consumed <= input, unknown tags rejected
 // @verif fns=retain::{decode_value,RetainReader::*}
 // @verif bound=all byte strings of length 1, 2, 3, 5, 9 or 10 whose first byte is 255 (tag byte and length concrete per call site, remaining bytes symbolic)
-// @verif stub=alloc::vec::Vec::<T>::with_capacity -> allocation monitor (asserts cap*size_of::<T>() <= 128*|input|+256, returns Vec::new())
+// @verif stub=alloc::vec::Vec::<T>::with_capacity -> allocation monitor (asserts cap*size_of::<T>() <= 128*|input|+256, then reserves the requested capacity)
 decode_tags!(c10_decode_total_unknown255, [255]);
 
 // (probed, not registered: decode_value on ARRAY headers - even the 9-byte input [28][len][dims] with only one
